@@ -1044,6 +1044,15 @@ func main() {
 								if op == "Child.EnsureRelPath" && strings.Count(r, "/") >= childSeg {
 									continue // the child structure adds one level: names one segment shorter
 								}
+								if c.Quick() && strings.Count(r, "/") >= maxSeg-1 {
+									// quick: the longest names are left out where they add nothing new
+									if op == "EnsureRelDir" {
+										continue // same Join + EnsureAbsPath route as EnsureRelPath
+									}
+									if rs.comp == "unpack" && (pf == prefRoot || pf == prefParent) {
+										continue // absolute prefixes only nest the entry deeper inside the unpack dir
+									}
+								}
 								specs = append(specs, caseSpec{Comp: rs.comp, Op: op, Chain: chain, Prefix: pf, Rel: r, Cwd: cwd})
 							}
 						}
@@ -1076,7 +1085,11 @@ func main() {
 				for _, kind := range caseVariants {
 					for _, chain := range rs.chains {
 						c.Scenario(fmt.Sprintf("%s root={SANDBOX}/%s name-case=%s", rs.comp, strings.Join(chain, "/"), kind))
-						for _, r := range rels(chain[len(chain)-1], caseSeg[rs.comp]) {
+						k := caseSeg[rs.comp]
+						if c.Quick() && rs.comp == "dirstruct" && kind != "upper" {
+							k-- // quick: the full length for one case variant
+						}
+						for _, r := range rels(chain[len(chain)-1], k) {
 							for _, pf := range prefixes {
 								for _, op := range rs.ops {
 									cs := caseSpec{Comp: rs.comp, Op: op, Chain: chain, Prefix: pf, Rel: r, Cwd: rs.cwds[0], Case: kind}
@@ -1113,6 +1126,9 @@ func main() {
 					for _, r := range rels(chain[len(chain)-1], stateSeg[rs.comp]) {
 						for _, pf := range prefixes {
 							for _, op := range rs.ops {
+								if c.Quick() && rs.comp == "fstree" && op != "Query" && strings.Count(r, "/") >= 2 {
+									continue // quick: three segments only for Query, where the state decides the walk root
+								}
 								specs = append(specs, caseSpec{Comp: rs.comp, Op: op, Chain: chain, Prefix: pf, Rel: r, Cwd: rs.cwds[0], State: state})
 							}
 						}
